@@ -129,11 +129,58 @@ func genCase(t *rapid.T) Case {
 		var set []int
 		for i := range c.Pool {
 			if rapid.IntRange(0, 3).Draw(t, "member") != 0 {
-				set = append(set, i)
+				variant, form := 0, 0
+				if c.Pool[i].Shared == 0 && rapid.IntRange(0, 2).Draw(t, "pwChanged") == 0 {
+					variant = 1
+				}
+				if rapid.IntRange(0, 2).Draw(t, "hashedForm") == 0 {
+					form = 1
+				}
+				set = append(set, member(i, variant, form))
 			}
 		}
 		if len(set) == 0 {
 			set = []int{0}
+		}
+		// most reloads change little: derive the set from the previous one by a
+		// single edit (one user's password, one user's form, one user removed or
+		// added, or nothing at all)
+		if s > 0 && rapid.IntRange(0, 2).Draw(t, "derived") != 0 {
+			prev := append([]int(nil), c.Sets[s-1]...)
+			j := rapid.IntRange(0, len(prev)-1).Draw(t, "editAt")
+			switch rapid.IntRange(0, 4).Draw(t, "edit") {
+			case 0: // password changed
+				if c.Pool[prev[j]%1000].Shared == 0 {
+					prev[j] = member(prev[j]%1000, 1-(prev[j]/1000)%2, prev[j]/2000)
+				}
+			case 1: // same credential, other form
+				prev[j] = member(prev[j]%1000, (prev[j]/1000)%2, 1-prev[j]/2000)
+			case 2: // removed
+				if len(prev) > 1 {
+					prev = append(prev[:j], prev[j+1:]...)
+				}
+			case 3: // added
+				add := rapid.IntRange(0, len(c.Pool)-1).Draw(t, "addUser")
+				present := false
+				for _, m := range prev {
+					if m%1000 == add {
+						present = true
+					}
+				}
+				if !present {
+					prev = append(prev, member(add, 0, rapid.IntRange(0, 1).Draw(t, "addForm")))
+				}
+			}
+			if rapid.IntRange(0, 3).Draw(t, "allHashed") == 0 {
+				// a stored server configuration carries hashes only
+				for k := range prev {
+					prev[k] = member(prev[k]%1000, (prev[k]/1000)%2, 1)
+				}
+				for k := range c.Sets[s-1] {
+					c.Sets[s-1][k] = member(c.Sets[s-1][k]%1000, (c.Sets[s-1][k]/1000)%2, 1)
+				}
+			}
+			set = prev
 		}
 		c.Sets = append(c.Sets, set)
 	}
@@ -145,14 +192,15 @@ func genCase(t *rapid.T) Case {
 		op.Kind = rapid.SampledFrom([]int{0, 0, 0, 0, 0, 0, 1, 2, 3}).Draw(t, "kind")
 		switch op.Kind {
 		case 0, 3:
-			op.KeyUser = rapid.IntRange(0, len(c.Pool)-1).Draw(t, "keyUser")
+			keyIdx := rapid.IntRange(0, len(c.Pool)-1).Draw(t, "keyUser")
+			op.KeyUser = member(keyIdx, rapid.IntRange(0, 1).Draw(t, "keyVariant"), 0)
 			switch rapid.IntRange(0, 4).Draw(t, "hintKind") {
 			case 0:
 				op.HintUser = -1
 			case 1:
 				op.HintUser = rapid.IntRange(0, len(c.Pool)-1).Draw(t, "hintUser")
 			default:
-				op.HintUser = op.KeyUser
+				op.HintUser = keyIdx
 			}
 			op.Prefix = rapid.IntRange(0, 5).Draw(t, "prefix")
 			op.Source = rapid.IntRange(0, 7).Draw(t, "source")
@@ -171,24 +219,33 @@ func genCase(t *rapid.T) Case {
 	return c
 }
 
-func (c Case) credential(i int) []byte {
-	u := c.Pool[i]
+// A set member or key reference m encodes: pool index m%1000, password
+// variant (m/1000)%2 (the same user with another password: what a reload that
+// changes a password installs) and form m/2000 (0: given as password, 1: given
+// as hashedPassword, the way a stored server configuration carries it).
+func member(idx, variant, form int) int { return idx + 1000*variant + 2000*form }
+
+func (c Case) credential(m int) []byte {
+	u := c.Pool[m%1000]
 	if u.Shared > 0 {
 		b, _ := hex.DecodeString(sharedCredential(u.Shared))
 		return b
 	}
-	return refproto.HashedPassword(u.Password, u.Name)
+	return refproto.HashedPassword(fmt.Sprintf("%s~%d", u.Password, (m/1000)%2), u.Name)
 }
 
 func (c Case) userMap(set []int) map[string]*pb.User {
 	m := map[string]*pb.User{}
-	for _, i := range set {
-		u := c.Pool[i]
+	for _, mem := range set {
+		u := c.Pool[mem%1000]
 		pu := &pb.User{Name: proto.String(u.Name)}
-		if u.Shared > 0 {
+		switch {
+		case u.Shared > 0:
 			pu.HashedPassword = proto.String(sharedCredential(u.Shared))
-		} else {
-			pu.Password = proto.String(u.Password)
+		case mem/2000 == 1:
+			pu.HashedPassword = proto.String(hex.EncodeToString(c.credential(mem)))
+		default:
+			pu.Password = proto.String(fmt.Sprintf("%s~%d", u.Password, (mem/1000)%2))
 		}
 		m[u.Name] = pu
 	}
@@ -225,9 +282,9 @@ func (c Case) expected(set []int, op Op, nonce []byte, mandatory bool) (accept b
 	var A, H []string
 	for _, i := range set {
 		if string(c.credential(i)) == string(cred) {
-			A = append(A, c.Pool[i].Name)
-			if refproto.HintMatches(c.Pool[i].Name, nonce) {
-				H = append(H, c.Pool[i].Name)
+			A = append(A, c.Pool[i%1000].Name)
+			if refproto.HintMatches(c.Pool[i%1000].Name, nonce) {
+				H = append(H, c.Pool[i%1000].Name)
 			}
 		}
 	}
@@ -372,7 +429,7 @@ func prop(c Case) (o pbt.Outcome) {
 			}
 			sort.Strings(names)
 			o.Failf(sig, "op %d: segment sealed with the credential of %q, hint of %v, source %v, mandatory=%v: got user=%q err=%v; oracle: accept=%v user in %v",
-				k, c.Pool[op.KeyUser].Name, op.HintUser, src, c.Mandatory, gotUser, gotErr, ok[0].accept, names)
+				k, c.Pool[op.KeyUser%1000].Name, op.HintUser, src, c.Mandatory, gotUser, gotErr, ok[0].accept, names)
 			return
 		}
 		if gotErr == nil {
